@@ -6,7 +6,7 @@ PROP = 'C03'
 KERNELS = ['rg_z_offset', 'rg_origins', 'rg_generate', 'dist_line_x', 'dist_line_y', 'dist_random', 'dist_uniform',
            'dist_hexapolar', 'dist_cross', 'dist_gq_radius', 'dist_gq', 'dist_ring', 'std_sag']
 THEOREMS = None     # filled below from coq/Props/C03.v once written
-COQ_TARGETS = ['Model/M_C03.vo']
+COQ_TARGETS = ['Model/M_C03.vo', 'Lemmas/L_C03_examples.vo']
 TRUSTED_BASE = BASE_TRUSTED + [
     'translator extension tools/py2coq_c03.py (1-D NumPy arrays as lists, np.linspace/meshgrid/mask/outer, int-keyed dict '
     'literals, an if/elif chain without else whose targets are read later raises) + coq/Num/OpsC03.v; validated by the kernel '
